@@ -118,6 +118,11 @@ func (m *Migrator) Migrate(
 		if err != nil {
 			return nil, fmt.Errorf("computing oldest block kept: %w", err)
 		}
+		if floor == 0 {
+			// Every block is retained (the window reaches down to genesis): nothing to prune,
+			// and there is no block below the window for the restorer to seed.
+			return nil, nil
+		}
 		m.oldestBlockKept = floor
 		m.floorPinned = true
 	}
